@@ -19,6 +19,10 @@ import (
 	"github.com/roddhjav/apparmor.d/pkg/util"
 )
 
+// maxLineSize is the longest log line accepted; longer than any record the
+// kernel or journald can emit, so reading never stops in the middle of a file.
+const maxLineSize = 64 * 1024 * 1024
+
 // LogFiles is the list of default path to query
 var LogFiles = []string{
 	"/var/log/audit/audit.log",
@@ -42,6 +46,7 @@ func GetApparmorLogs(file io.Reader, profile string) []string {
 	}
 
 	scanner := bufio.NewScanner(file)
+	scanner.Buffer(make([]byte, 0, bufio.MaxScanTokenSize), maxLineSize)
 	for scanner.Scan() {
 		line := scanner.Text()
 		if isAppArmorLog.MatchString(line) {
@@ -75,6 +80,7 @@ func GetJournalctlLogs(path string, since string, useFile bool) (io.Reader, erro
 			return nil, err
 		}
 		scanner = bufio.NewScanner(file)
+		scanner.Buffer(make([]byte, 0, bufio.MaxScanTokenSize), maxLineSize)
 	} else {
 		// journalctl -b -o json -g apparmor -t kernel -t audit -t dbus-daemon --output-fields=MESSAGE > systemd.log
 		args := []string{
@@ -94,6 +100,7 @@ func GetJournalctlLogs(path string, since string, useFile bool) (io.Reader, erro
 			return nil, fmt.Errorf("journalctl: %s", stderr.String())
 		}
 		scanner = bufio.NewScanner(&stdout)
+		scanner.Buffer(make([]byte, 0, bufio.MaxScanTokenSize), maxLineSize)
 	}
 
 	var jctlRaw []string
